@@ -640,7 +640,7 @@ def prims():
     return [Prim(n) for n in PRIM_NAMES]
 
 
-EN = Enum("En", [("A", 7), ("B", 2), ("C", 3)])   # non-monotonic; C is implicit (previous + 1, not highest + 1)
+EN = Enum("En", [("A", 7), ("B", 1), ("C", 2)])   # non-monotonic; B and C sit at their own position (value == index) behind a larger predecessor; C is implicit
 EN1 = Enum("En1", [("Only", 0)])   # a single variant: still a 4-byte repr(C) enum on the wire
 ENN = Enum("EnN", [("N", -2147483648), ("M", -2), ("Z", 0), ("P", 7), ("X", 2147483647)])
 ST = Struct("St", [("a", Prim("u8")), ("b", Prim("u32"))])
